@@ -163,9 +163,10 @@ pub fn nontrivial_rule(prop: u32) -> String {
 
 pub fn gen_cfg(rng: &mut Rng, prop: u32, kind_fixed: Option<Kind>) -> RunCfg {
     let kind = kind_fixed.unwrap_or(if rng.chance(1, 2) { Kind::Pq } else { Kind::Dpq });
-    let hasher = match rng.below(10) {
+    let hasher = match rng.below(12) {
         0 => HasherKind::Mul,
         1 => HasherKind::Collide,
+        2 => HasherKind::Special,
         _ => HasherKind::Seeded(rng.next(), rng.next()),
     };
     let ctor = match rng.below(10) {
@@ -319,6 +320,7 @@ impl Gen {
             0 => v.push(ItOp::RestForEach),
             1 => v.push(ItOp::RestCount),
             2 => v.push(ItOp::RestLast),
+            3 => v.push(if r.chance(1, 2) { ItOp::RestMin } else { ItOp::RestMax }),
             _ => {}
         }
         v
@@ -432,7 +434,7 @@ impl Gen {
                 let mut prog = self.prog(n, dbl);
                 let late = self.late_writes && fam == Fam::IterMut && self.rng.chance(1, 12);
                 if late && !matches!(prog.last(), Some(ItOp::RestLast)) {
-                    prog.retain(|o| !matches!(o, ItOp::RestForEach | ItOp::RestCount | ItOp::RestLast));
+                    prog.retain(|o| !matches!(o, ItOp::RestForEach | ItOp::RestCount | ItOp::RestLast | ItOp::RestMin | ItOp::RestMax));
                     prog.push(ItOp::RestLast);
                 }
                 Step::IterMut { prog, via, end: if fam == Fam::IterMut { GEnd::Drop } else { GEnd::Forget }, rule, late }
